@@ -43,8 +43,9 @@ Lemma closed_loader c l tagged : Closed l tagged ->
   Forall (fun t => resolves c (fst t) (snd t)) (stream_tags l) ->
   loader_batches c (map snd tagged) = Some (map (expected c) tagged).
 Proof.
-  induction 1 as [|e l bs Hc IH|b l bs Hne Hc IH|ci b l bs Hne Hc IH]; intros HF.
+  induction 1 as [|e l bs Hc IH|e l bs Hc IH|b l bs Hne Hc IH|ci b l bs Hne Hc IH]; intros HF.
   - reflexivity.
+  - apply IH. exact HF.
   - apply IH. exact HF.
   - rewrite stream_tags_app, stream_tags_emit_main in HF. apply Forall_app in HF. destruct HF as [H1 H2].
     cbn [map snd loader_batches]. rewrite (deliver_ok c 0%nat b Hne), (IH H2); [reflexivity|].
@@ -64,6 +65,7 @@ Section L.
   Definition ev_ok (ev : event) : Prop :=
     match ev with
     | SetEpoch _ => True
+    | IterStart _ => True
     | Main _ i => 0 <= i < dsN c
     | Side ci _ i => exists sc, nth_error (sides c) ci = Some sc /\ 0 <= i - offset_of c ci < dslen sc
     end.
@@ -124,7 +126,7 @@ Section L.
 
   Lemma epoch_events_ok e pn : Forall ev_ok (epoch_events c mi e pn).
   Proof.
-    unfold epoch_events. constructor; [exact Logic.I|].
+    unfold epoch_events. constructor; [exact Logic.I|]. constructor; [exact Logic.I|].
     pose proof (take_until_incl (hit c) (epoch_updates c mi e pn)) as Hin.
     induction (fst (take_until (hit c) (epoch_updates c mi e pn))) as [|u us IH]; [constructor|].
     cbn [flat_map]. apply Forall_app. split.
@@ -146,7 +148,7 @@ Section L.
   Lemma ev_ok_resolves tr : Forall ev_ok tr -> Forall (fun t => resolves c (fst t) (snd t)) (stream_tags tr).
   Proof.
     induction 1 as [|ev tr Hev _ IH]; [constructor|]. cbn [stream_tags].
-    destruct ev as [e|f i|ci f i]; cbn [batch_indices_of]; [exact IH| |]; constructor; auto; cbn [fst snd].
+    destruct ev as [e|e|f i|ci f i]; cbn [batch_indices_of]; [exact IH|exact IH| |]; constructor; auto; cbn [fst snd].
     - unfold resolves. cbn [base]. rewrite Z.sub_0_r. apply main_roundtrip. exact Hev.
     - destruct Hev as [sc [Hn Hr]]. unfold resolves. cbn [base].
       replace i with (offset_of c ci + (i - offset_of c ci)) at 1 by lia.
